@@ -53,6 +53,7 @@ func Run(conf core.Config) *core.Result {
 		"FACT.deadloop: a loop between the two dimensions of a factorization type's storage field runs in the direction the type's own factorize method admits (QR: rows >= cols, LQ: rows <= cols); a loop that can never execute is reported",
 		"FACT.reuse: a matrix field of a factorization type that is resized with reuseAs*/ReuseAs* (which panics for a non-empty matrix of another size) is reset first on every path of the same function, or is reset by another method of the type",
 		"FACT.failstate: in a Factorize method the statement list that ends in `return false` first resets the receiver or stores into one of its fields",
+		"FACT.alias: a method that takes another value of its receiver's type assigns to no slice field of the receiver an expression rooted at that value (selectors and reslices only)",
 		"FACT.state: a method of a mat factorization type that takes another value of its own type and writes the receiver assigns every field of the type (directly or through a receiver method it calls)")
 	res.Configs = append(res.Configs, conf.String())
 	pkgs, err := core.Load(conf, "./mat")
@@ -68,6 +69,7 @@ func Run(conf core.Config) *core.Result {
 	deadLoop(pkg, res)
 	reuseReset(pkg, res)
 	failState(pkg, res)
+	aliasOperand(pkg, res)
 	return res
 }
 
